@@ -15,7 +15,8 @@ EXTENDS Expr, PyIndex, Annot, Catalog, Json, TLC
 CONSTANTS MaxLvl,      \* number of combinator applications
           MaxDim,      \* bound on rows and on columns of every tree
           Acts,        \* enabled action names
-          DoEmit       \* print JSON lines
+          DoEmit,      \* print JSON lines
+          EntryBound   \* bound on |re|, |im|, denominator of every entry (32-bit safety)
 
 VARIABLES t, lvl, ok
 vars == <<t, lvl, ok>>
@@ -49,6 +50,8 @@ Unary(x) ==
           ELSE {})
     \cup (IF "Annot" \in Acts
           THEN {N("Annot", <<x>>, [ann |-> a]): a \in {b \in AnnNames: Holds(b, Denote(x))}} ELSE {})
+    \cup (IF "Gram" \in Acts
+          THEN {N("GramT", <<x>>, NoP), N("GramH", <<x>>, NoP), N("GramHr", <<x>>, NoP)} ELSE {})
     \cup (IF "op_getitem" \in Acts
           THEN LET s == ShapeOf(x) IN
                {N("op_getitem", <<x>>, [rf |-> IndexForms[i], cf |-> IndexForms[j], single |-> FALSE,
@@ -101,7 +104,7 @@ Ternary(x, o1, o2) ==
 
 \* shape errors are reachable on purpose (the property demands a rejection) when "errors" is enabled
 \* entries stay small enough that no 32-bit overflow can occur while the next action is evaluated
-Accept(n) == IF WellFormed(n) THEN Fits(n) /\ EntriesWithin(Denote(n), 2000)
+Accept(n) == IF WellFormed(n) THEN Fits(n) /\ EntriesWithin(Denote(n), EntryBound)
              ELSE "errors" \in Acts /\ n.k \in {"op_matmul", "op_add", "op_sub", "op_sum", "Product", "Sum"}
 \* results that are arrays, not operators: nothing can be applied to them
 Terminal(n) == \/ n.k \in {"op_getitem", "op_densify"}
@@ -119,13 +122,22 @@ Next == /\ ok /\ lvl < MaxLvl
 Spec == Init /\ [][Next]_vars
 
 ---------------------------------------------------------------------------
-Out == IF WellFormed(t) THEN [t |-> t, wf |-> TRUE, dense |-> Denote(t), dt |-> DTypeOf(t), lvl |-> lvl]
+Out == IF WellFormed(t)
+       THEN IF "anns" \in Acts
+            THEN LET d == Denote(t) IN
+                 [t |-> t, wf |-> TRUE, dense |-> d, dt |-> DTypeOf(t), lvl |-> lvl,
+                  true_anns |-> TrueAnns(d), ctor |-> CtorOnly(t),
+                  infer |-> IF CtorOnly(t) THEN Infer(t) ELSE {},
+                  unsound |-> IF CtorOnly(t) THEN Unsound(t) ELSE {}]
+            ELSE [t |-> t, wf |-> TRUE, dense |-> Denote(t), dt |-> DTypeOf(t), lvl |-> lvl]
        ELSE [t |-> t, wf |-> FALSE, lvl |-> lvl]
 Emit == IF DoEmit THEN PrintT(ToJson(Out)) ELSE TRUE
 
 \* model-level sanity: the shape calculus agrees with the denotation
 ShapeConsistent == WellFormed(t) => LET d == Denote(t) IN <<d.r, d.c>> = ShapeOf(t)
 \* transposing / taking the adjoint twice is the identity on denotations
+\* the modelled inference never reports a false annotation (known to fail: see known_findings.json, C05)
+InferSound == (WellFormed(t) /\ CtorOnly(t)) => Unsound(t) = {}
 Involution == WellFormed(t) => /\ MEq(MTr(MTr(Denote(t))), Denote(t))
                     /\ MEq(MAdj(MAdj(Denote(t))), Denote(t))
 =============================================================================
